@@ -758,6 +758,22 @@ func frameDiff(a, b *hg.Frame) string {
 	}
 	if len(a.Events) != len(b.Events) {
 		out += fmt.Sprintf("Events %d/%d; ", len(a.Events), len(b.Events))
+		inB := map[string]bool{}
+		for _, e := range b.Events {
+			inB[e.Core.Hex()] = true
+		}
+		inA := map[string]bool{}
+		for _, e := range a.Events {
+			inA[e.Core.Hex()] = true
+			if !inB[e.Core.Hex()] {
+				out += fmt.Sprintf("only-in-first: creator ..%s index %d round %d lamport %d sp=%v op=%v; ", e.Core.Creator()[len(e.Core.Creator())-6:], e.Core.Index(), e.Round, e.LamportTimestamp, e.Core.SelfParent() != "", e.Core.OtherParent() != "")
+			}
+		}
+		for _, e := range b.Events {
+			if !inA[e.Core.Hex()] {
+				out += fmt.Sprintf("only-in-second: creator ..%s index %d round %d lamport %d; ", e.Core.Creator()[len(e.Core.Creator())-6:], e.Core.Index(), e.Round, e.LamportTimestamp)
+			}
+		}
 	} else {
 		for i := range a.Events {
 			x, y := a.Events[i], b.Events[i]
@@ -826,4 +842,100 @@ func frameDiff(a, b *hg.Frame) string {
 		out = "(no structural difference found: encoding-level difference)"
 	}
 	return out
+}
+
+// classifyC13: a reset node whose anchor frame lacks the root of a participant
+// that is not yet effective at the anchor round but already has committed
+// events (its join request was answered through the "already present" path, so
+// it started creating events before its effective round) re-commits those
+// events. That is one listed finding; everything else keeps its own key.
+func (c *Cluster) classifyC13(v *Violation) {
+	for _, n := range c.nodes {
+		if !n.running() || !n.ffDone {
+			continue
+		}
+		lb := n.core().Hashgraph().SimRoundLowerBound()
+		if lb < 0 {
+			continue
+		}
+		var full *SimNode
+		for _, m := range c.nodes {
+			if m.running() && !m.ffDone && !m.isObserver {
+				full = m
+				break
+			}
+		}
+		if full == nil {
+			return
+		}
+		store := full.core().Hashgraph().Store
+		// (b) the reset node lacks a witness of the round it was reset to (or the
+		// one before): its roots only go ROOT_DEPTH events back per creator
+		nstore := n.core().Hashgraph().Store
+		for r := lb - 1; r <= lb; r++ {
+			if r < 0 {
+				continue
+			}
+			ri, err := store.GetRound(r)
+			if err != nil {
+				continue
+			}
+			ws := ri.Witnesses()
+			sort.Strings(ws)
+			for _, w := range ws {
+				if _, err := nstore.GetEvent(w); err != nil {
+					v.Key = "reset-node-lacks-witness-beyond-root-depth"
+					v.Message += fmt.Sprintf(" [class: reset node %d (anchor round %d) does not hold witness %s of round %d: the frame's roots only reach %d events back per creator, so rounds of new events are computed from an incomplete witness list]", n.idx, lb, short(w), r, hg.ROOT_DEPTH)
+					return
+				}
+			}
+		}
+		// (c) same cause seen from an event: find an event whose round differs
+		// and look for a missing witness of its parent round
+		for _, de := range c.dag.order {
+			en, err1 := nstore.GetEvent(de.Hash)
+			ef, err2 := store.GetEvent(de.Hash)
+			if err1 != nil || err2 != nil || en.SimRound() < 0 || ef.SimRound() < 0 || en.SimRound() == ef.SimRound() {
+				continue
+			}
+			for r := ef.SimRound() - 1; r <= ef.SimRound(); r++ {
+				if r < 0 {
+					continue
+				}
+				ri, err := store.GetRound(r)
+				if err != nil {
+					continue
+				}
+				ws := ri.Witnesses()
+				sort.Strings(ws)
+				for _, w := range ws {
+					if _, err := nstore.GetEvent(w); err != nil {
+						v.Key = "reset-node-lacks-witness-beyond-root-depth"
+						v.Message += fmt.Sprintf(" [class: reset node %d (anchor round %d) gives event %s round %d (full-history nodes: %d) because it does not hold witness %s of round %d: the frame holds at most %d consensus events back per creator]", n.idx, lb, short(de.Hash), en.SimRound(), ef.SimRound(), short(w), r, hg.ROOT_DEPTH)
+						return
+					}
+				}
+			}
+			break
+		}
+		for _, p := range store.RepertoireByID() {
+			fr, ok := store.FirstRound(p.ID())
+			if !ok || fr <= lb {
+				continue
+			}
+			h, err := store.ParticipantEvent(p.PubKeyString(), 0)
+			if err != nil {
+				continue
+			}
+			ev, err := store.GetEvent(h)
+			if err != nil {
+				continue
+			}
+			if rr := ev.SimRoundReceived(); rr >= 0 && rr <= lb {
+				v.Key = "anchor-frame-lacks-root-of-pending-joiner"
+				v.Message += fmt.Sprintf(" [class: participant ..%s becomes a validator at round %d, after the anchor round %d of reset node %d, but its first event was already committed in round %d; the anchor frame carries no root for it]", p.PubKeyString()[len(p.PubKeyString())-6:], fr, lb, n.idx, rr)
+				return
+			}
+		}
+	}
 }
